@@ -262,6 +262,10 @@ def run_prior(plan, cov, events):
       arr[0, d - 1] += 1.0 + np.abs(arr).max()
     elif opt == "wrongshape":
       arr = make_array(dict(kind="spd", seed=plan["arr_seed"], d=d + 1))
+  if arr is not None and plan.get("arr_layout"):
+    from ..estimators import _layout
+    arr = _layout(arr, plan["arr_layout"])
+    cov["array_layout_" + plan["arr_layout"]] += 1
   prior = arr if arr is not None else opt
   arr_dg = digest(arr) if arr is not None else None
   pname = "init" if learner == "MMC" else "prior"
@@ -495,6 +499,10 @@ def run_init(plan, cov, events):
       arr = make_array(dict(kind="lin", seed=plan["arr_seed"], k=d + 1, d=d))
     else:
       arr = make_array(dict(kind="lin", seed=plan["arr_seed"], k=max(1, keff - 1) if keff > 1 else 2, d=d))
+  if arr is not None and plan.get("arr_layout"):
+    from ..estimators import _layout
+    arr = _layout(arr, plan["arr_layout"])
+    cov["array_layout_" + plan["arr_layout"]] += 1
   init = arr if arr is not None else opt
   arr_dg = digest(arr) if arr is not None else None
   world.perturb_ambient(plan["ambient"], 3)
@@ -609,6 +617,11 @@ def gen_plan(seed, tier):
                                  "array_badcols", "array_toomanyrows", "array_rowsmismatch"]),
                 k=r.choice([None] + list(range(1, d + 1))), seed=r.randrange(10**6),
                 arr_seed=r.randrange(10**6))
+  if cfg in ("prior", "init"):
+    from ..estimators import gen_layout
+    lay = gen_layout(substream(seed, "c20-layout"), 0.4)
+    if lay:
+      plan["arr_layout"] = lay        # Fortran-ordered / non-contiguous array option
   return plan
 
 
